@@ -112,6 +112,10 @@ func mainArgs(c mainCase, dir string) mainSetup {
 		os.WriteFile(blocker, []byte("x"), 0o600)
 		cache = filepath.Join(blocker, "sub", "cert.txtar")
 		s.operand["cache-unwritable"] = []string{cache, blocker, "certificate", "cert"}
+	case has["cache-nocreate"]:
+		// a directory that exists and in which even root cannot create a file
+		cache = fmt.Sprintf("/proc/c20-cert-%d.txtar", os.Getpid())
+		s.operand["cache-nocreate"] = []string{cache, "certificate", "cert"}
 	}
 	s.args = []string{"-listen-address", addr, "-tls-certificate-cache", cache}
 	if has["badlog"] {
@@ -435,7 +439,7 @@ func mainCampaign(r *ev.Run) {
 	r.Set("impossible_combinations_skipped", nskip)
 	r.Set("agree_with_code_order", agree)
 	r.Set("exhaustive", true)
-	r.Rule("TLC enumerates every fault set of size <= 2 over {unopenable log, listen address bad syntax / in use / unassignable, cache damaged / unwritable, missing Ctrl+I source, -icanhazip offline} x informational flag x TTY yes/no x exit by Ctrl+C / Ctrl+D (for fault-free runs in each of the states idle, one stream attached, shell attached, shell attached and muted, half a line typed, shell flooding the terminal) from Main.tla and emits the allowed outcomes; each is created for real (scratch files, bound ports, pty or no terminal) and run with the real binary: exit status, text (no panic / trace), the message names a cause that is present, termios before start == after exit; non-trivial = distinct configurations with a fault or without TTY")
+	r.Rule("TLC enumerates every fault set of size <= 2 over {unopenable log, listen address bad syntax / in use / unassignable, cache damaged / unwritable / in a directory where nothing can be created, missing Ctrl+I source, -icanhazip offline} x informational flag x TTY yes/no x exit by Ctrl+C / Ctrl+D (for fault-free runs in each of the states idle, one stream attached, shell attached, shell attached and muted, half a line typed, shell flooding the terminal) from Main.tla and emits the allowed outcomes; each is created for real (scratch files, bound ports, pty or no terminal) and run with the real binary: exit status, text (no panic / trace), the message names a cause that is present, termios before start == after exit; non-trivial = distinct configurations with a fault or without TTY")
 	r.Assume("faults are the enumerated classes; permission faults are produced with ENOTDIR because the checks run as root")
 	_ = bytes.Contains
 }
